@@ -286,9 +286,9 @@ func (f *File) AddChild(child Box, boxStartPos uint64) {
 		// Starts a new segment
 		f.isFragmented = true
 		f.AddMediaSegment(&MediaSegment{Styp: box, StartPos: boxStartPos})
-	case *EmsgBox:
-		// emsg box is only added at the start of a fragment (inside a segment).
-		// The case that a segment starts without an emsg is also handled.
+	case *EmsgBox, *PrftBox:
+		// emsg and prft boxes are only added at the start of a fragment (inside a segment).
+		// The case that a segment starts without an emsg or prft is also handled.
 		f.startSegmentIfNeeded(box, boxStartPos)
 		lastSeg := f.LastSegment()
 		if len(lastSeg.Fragments) == 0 {
